@@ -10,6 +10,7 @@ import (
 	"encoding/json"
 	"fmt"
 	"reflect"
+	"regexp"
 	"sort"
 	"strings"
 	"unsafe"
@@ -433,4 +434,250 @@ func OutsOf(e error) *Outs {
 	b2, _ := json.Marshal(extras)
 	o.Report = wordSet(string(b1), string(b2))
 	return o
+}
+
+// PVerbose abstracts one %+v rendering.
+type PVerbose struct {
+	Starts bool       `json:"starts"` // begins with the Error() text
+	NEnt   int        `json:"nent"`   // numbered entries
+	Depths []int      `json:"depths"` // indentation level of each entry
+	Types  []string   `json:"types"`  // the "Error types" line, as catalogue names
+	Words  [][]string `json:"words"`  // words of each entry
+	Lits   [][]string `json:"lits"`   // detail literals of the library found in each entry
+}
+
+// Fmt abstracts the formatting behaviour of a value (C09).
+type Fmt struct {
+	BadDirect      []string  `json:"badDirect"`      // specs where fmt(spec, e) != fmt(spec, e.Error())
+	BadFormattable []string  `json:"badFormattable"` // same through errors.Formattable
+	BadVerb        []string  `json:"badVerb"`        // other verbs: not fmt's %!verb(type) notation
+	BadVerbF       []string  `json:"badVerbF"`
+	GoSyntax       bool      `json:"goSyntax"` // %#v gives a non-empty dump
+	PV             *PVerbose `json:"pv"`       // %+v, direct
+	PVF            *PVerbose `json:"pvf"`      // %+v, through Formattable
+}
+
+var entryRe = regexp.MustCompile(`^((?:  )*)(└─ )?Wraps: \((\d+)\)`)
+
+func parseVerbose(out, text string) *PVerbose {
+	p := &PVerbose{Depths: []int{}, Types: []string{}, Words: [][]string{}, Lits: [][]string{}}
+	p.Starts = strings.HasPrefix(out, text)
+	body := out
+	if i := strings.LastIndex(out, "\nError types:"); i >= 0 {
+		body = out[:i]
+		for _, f := range strings.Split(out[i+len("\nError types:"):], " (") {
+			f = strings.TrimSpace(f)
+			if j := strings.Index(f, ") "); j >= 0 {
+				t := strings.TrimSpace(f[j+2:])
+				if ty, ok := cat.GoType2Ty[t]; ok {
+					p.Types = append(p.Types, ty)
+				} else {
+					p.Types = append(p.Types, "T:"+t)
+				}
+			}
+		}
+	}
+	lines := strings.Split(body, "\n")
+	cur := -1
+	var bufs []string
+	for _, ln := range lines {
+		if cur < 0 {
+			if strings.HasPrefix(ln, "(1)") {
+				cur = 0
+				p.Depths = append(p.Depths, 0)
+				bufs = append(bufs, ln[3:])
+			}
+			continue
+		}
+		if m := entryRe.FindStringSubmatch(ln); m != nil {
+			d := len(m[1]) / 2
+			if m[2] != "" {
+				d++
+			}
+			p.Depths = append(p.Depths, d)
+			bufs = append(bufs, ln[len(m[0]):])
+			cur++
+			continue
+		}
+		bufs[cur] += "\n" + ln
+	}
+	p.NEnt = len(bufs)
+	for _, b := range bufs {
+		p.Words = append(p.Words, tok.Words(b))
+		lits := []string{}
+		for name, txt := range cat.DetailLits {
+			if strings.Contains(b, txt) {
+				lits = append(lits, name)
+			}
+		}
+		sort.Strings(lits)
+		p.Lits = append(p.Lits, lits)
+	}
+	return p
+}
+
+// FmtSpecs is the table of verb specifications compared with fmt's rendering
+// of the Error() string.
+func FmtSpecs() []string {
+	var out []string
+	for _, verb := range []string{"v", "s", "q", "x", "X"} {
+		for _, flags := range []string{"", "-", "#", " ", "0", "+", "-#", "# ", "+#", "-0"} {
+			if verb == "v" && strings.Contains(flags, "+") {
+				continue // %+v is the verbose form
+			}
+			if verb == "v" && strings.Contains(flags, "#") {
+				continue // %#v is the Go-syntax form
+			}
+			for _, w := range []string{"", "3", "40"} {
+				for _, pr := range []string{"", ".0", ".2", ".50"} {
+					out = append(out, "%"+flags+w+pr+verb)
+				}
+			}
+		}
+	}
+	return out
+}
+
+func sprintf(spec string, a interface{}) (s string) {
+	defer func() {
+		if r := recover(); r != nil {
+			s = fmt.Sprintf("PANIC:%v", r)
+		}
+	}()
+	return fmt.Sprintf(spec, a)
+}
+
+// FmtOf computes the formatting observation.
+func FmtOf(e error) *Fmt {
+	f := &Fmt{BadDirect: []string{}, BadFormattable: []string{}, BadVerb: []string{}, BadVerbF: []string{}}
+	text, _ := safeError(e)
+	for _, spec := range FmtSpecs() {
+		want := sprintf(spec, text)
+		if got := sprintf(spec, e); got != want {
+			f.BadDirect = append(f.BadDirect, spec)
+		}
+		if got := sprintf(spec, errors.Formattable(e)); got != want {
+			f.BadFormattable = append(f.BadFormattable, spec)
+		}
+	}
+	for _, verb := range []string{"d", "t", "f", "c", "5d", "-3t"} {
+		want := "%!" + verb[len(verb)-1:] + "(" + reflect.TypeOf(e).String() + ")"
+		if got := sprintf("%"+verb, e); got != want {
+			f.BadVerb = append(f.BadVerb, verb)
+		}
+		if got := sprintf("%"+verb, errors.Formattable(e)); got != want {
+			f.BadVerbF = append(f.BadVerbF, verb)
+		}
+	}
+	gs := sprintf("%#v", errors.Formattable(e))
+	f.GoSyntax = gs != "" && !strings.HasPrefix(gs, "%!") && !strings.HasPrefix(gs, "PANIC:")
+	f.PV = parseVerbose(sprintf("%+v", e), text)
+	f.PVF = parseVerbose(sprintf("%+v", errors.Formattable(e)), text)
+	return f
+}
+
+// Report abstracts BuildSentryReport (C15).
+type Report struct {
+	HasSource  bool       `json:"hasSource"`  // GetOneLineSource found a location
+	SrcPrefix  bool       `json:"srcPrefix"`  // the message begins with "file:line: " of that location
+	HeadOK     bool       `json:"headOK"`     // then comes the redacted verbose rendering
+	NComp      int        `json:"ncomp"`      // composition lines
+	NExc       int        `json:"nexc"`       // exceptions
+	Synthetic  bool       `json:"synthetic"`  // single exception without stack trace
+	ExcFrames  bool       `json:"excFrames"`  // k-th exception carries the frames of the k-th stack-carrying layer, outermost first
+	ExcModule  bool       `json:"excModule"`  // every exception's module is the error's domain
+	NStack     int        `json:"nstack"`     // layers with a reportable stack trace
+	Types      [][]string `json:"types"`      // "error types" extra: [type name, family or *, extension] per line
+	NilNothing bool       `json:"nilNothing"` // BuildSentryReport(nil) returns nothing
+}
+
+func framesKey(st *errors.ReportableStackTrace) string {
+	if st == nil {
+		return "<nil>"
+	}
+	var b strings.Builder
+	for _, f := range st.Frames {
+		fmt.Fprintf(&b, "%s:%d;", f.Function, f.Lineno)
+	}
+	return b.String()
+}
+
+// ReportOf computes the report observation.
+func ReportOf(e error) *Report {
+	r := &Report{Types: [][]string{}}
+	ev0, ex0 := errors.BuildSentryReport(nil)
+	r.NilNothing = ev0 == nil && len(ex0) == 0
+	ev, extras := errors.BuildSentryReport(e)
+	if ev == nil {
+		return r
+	}
+	msg := ev.Message
+	file, line, _, ok := errors.GetOneLineSource(e)
+	r.HasSource = ok
+	rest := msg
+	if ok {
+		pfx := fmt.Sprintf("%s:%d: ", file, line)
+		r.SrcPrefix = strings.HasPrefix(msg, pfx)
+		rest = strings.TrimPrefix(msg, pfx)
+	} else {
+		r.SrcPrefix = true
+	}
+	verbose := redact.Sprintf("%+v", e).Redact().StripMarkers()
+	const compHdr = "\n-- report composition:\n"
+	r.HeadOK = strings.HasPrefix(rest, verbose+compHdr)
+	if i := strings.LastIndex(msg, compHdr); i >= 0 {
+		comp := strings.TrimSuffix(msg[i+len(compHdr):], "\n(check the extra data payloads)")
+		r.NComp = len(strings.Split(comp, "\n"))
+	}
+	r.NExc = len(ev.Exception)
+	var stacks []*errors.ReportableStackTrace
+	for _, n := range VisNodes(e) {
+		if st := errors.GetReportableStackTrace(n); st != nil {
+			stacks = append(stacks, st)
+		}
+	}
+	r.NStack = len(stacks)
+	r.Synthetic = len(ev.Exception) == 1 && ev.Exception[0].Stacktrace == nil
+	r.ExcFrames = true
+	if len(stacks) > 0 {
+		if len(stacks) != len(ev.Exception) {
+			r.ExcFrames = false
+		} else {
+			for k := range stacks {
+				if framesKey(stacks[k]) != framesKey(ev.Exception[k].Stacktrace) {
+					r.ExcFrames = false
+				}
+			}
+		}
+	}
+	r.ExcModule = true
+	dom := string(errors.GetDomain(e))
+	for _, x := range ev.Exception {
+		if x.Module != dom {
+			r.ExcModule = false
+		}
+	}
+	if ts, ok := extras["error types"].(string); ok {
+		for _, ln := range strings.Split(strings.TrimSuffix(ts, "\n"), "\n") {
+			// "<type name> (<family or *>::<extension>)"
+			i := strings.LastIndex(ln, " (")
+			if i < 0 || !strings.HasSuffix(ln, ")") {
+				r.Types = append(r.Types, []string{"?" + ln})
+				continue
+			}
+			tn := ln[:i]
+			in := ln[i+2 : len(ln)-1]
+			j := strings.Index(in, "::")
+			if j < 0 {
+				r.Types = append(r.Types, []string{"?" + ln})
+				continue
+			}
+			fm := in[:j]
+			if fm != "*" {
+				fm = cat.FamOf(fm)
+			}
+			r.Types = append(r.Types, append([]string{cat.FamOf(tn), fm}, tok.Lex(in[j+2:])...))
+		}
+	}
+	return r
 }
